@@ -119,6 +119,28 @@ def collect(records):
     return models
 
 
+KNOWN_IDS = set()
+
+
+def ttu_occurrences(m):
+    """(number of TTU edges the statement of C10 asks for, whether some operator has one tuple-to-userset twice among its operands)"""
+    total, repeated = 0, False
+    for t in m["types"]:
+        rd = {r["name"]: r for r in t["rels"]}
+
+        def walk(tree):
+            nonlocal total, repeated
+            if tree["k"] == "ttu":
+                total += len({x["t"] for x in rd[tree["ts"]]["restr"]}) if tree["ts"] in rd else 0
+            for c in tree.get("ch") or []:
+                walk(c)
+            keys = [(c["ts"], c["rel"]) for c in tree.get("ch") or [] if c["k"] == "ttu"]
+            repeated = repeated or len(keys) != len(set(keys))
+        for r in t["rels"]:
+            walk(r["rw"])
+    return total, repeated
+
+
 def judge(chk, pid, md, findings_d11):
     """Compares the real observations of one model with the Ideal layer for property pid."""
     obs = md.obs
@@ -156,6 +178,16 @@ def judge(chk, pid, md, findings_d11):
                 diff = [f for f in set(se) | set(re_) if se.get(f) != re_.get(f)]
                 chk.violation("edges differ from Graph(M) at %s: spec %s real %s" % (diff[:2], [se.get(f) for f in diff[:2]], [re_.get(f) for f in diff[:2]]),
                               dict(replay, spec_edges={k: v for k, v in se.items()}, real_edges={k: v for k, v in re_.items()}))
+            # independent of Graph(M) (which transcribes the builder's edge de-duplication): "a tuple-to-userset yields one TTU edge per
+            # parent type of the tupleset", counted over every occurrence of a tuple-to-userset in the rewrites
+            if sn == rn and md.g.get("err", "none") == "none":
+                want, repeated = ttu_occurrences(md.m)
+                got = sum(len([e for e in es if e[1] == "ttu"]) for es in re_.values())
+                if got != want:
+                    if repeated and got < want and se == re_ and "D23" in KNOWN_IDS:
+                        chk.known_finding("D23")
+                    else:
+                        chk.violation("the graph has %d tuple-to-userset edges, the rewrites ask for %d (one per parent type per occurrence)" % (got, want), dict(replay, real_edges=re_))
         if not obs["model_unchanged"]:
             chk.violation("Build modified the model it was given", replay)
         if obs.get("api_structure_differs"):
@@ -250,6 +282,9 @@ def replay_findings(chk, pid, binary, scratch):
     active = []
     for f in load_findings():
         if f["status"] != "known" or pid not in f["properties"] or f.get("spec") != "wgraph":
+            continue
+        if "m" not in f.get("witness", {}):          # structural findings (D23) are counted where they are observed, see judge()
+            KNOWN_IDS.add(f["id"])
             continue
         inp = scratch.path("kf-%s.ndjson" % f["id"])
         out = scratch.path("kf-%s.out.ndjson" % f["id"])
@@ -371,7 +406,7 @@ def run(pid, tier):
         d11 = "D11" in active or any(f["id"] == "D11" and f["status"] == "known" and pid in f["properties"] for f in load_findings())
 
         # ---- MC + RP over the bounded universe
-        ALLSHAPES = "<<" + ",".join(str(i) for i in range(1, 33)) + ">>"
+        ALLSHAPES = "<<" + ",".join(str(i) for i in range(1, 34)) + ">>"
         # (free relations, shapes of the first one, shapes of the others)
         universes = [(2, ALLSHAPES, "<<1,3,4,5,6,9,11,13,22,27>>")] if tier == "quick" else \
                     [(2, ALLSHAPES, ALLSHAPES), (3, "<<1,2,4,6,8,9,11,12,13,14,16,17,22,25,26,27,28,30,31>>", "<<1,4,5,6,9,11,22,27>>")]
@@ -422,6 +457,12 @@ def run(pid, tier):
         trans += tr
         allmodels += ms
 
+        for f in load_findings():
+            if f["id"] in KNOWN_IDS and f["status"] == "known" and pid in f["properties"]:
+                if chk.known.get(f["id"]):
+                    log("KNOWN-FINDING: property=%s %s: %s" % (pid, f["id"], f["what"]))
+                else:
+                    log("note: listed finding %s no longer reproduces" % f["id"])
         chk.cov.update(states=states, transitions=trans,
                        evaluations=chk.cov.get("real_builds", 0),
                        distinct_nontrivial=len({json.dumps(m.m, sort_keys=True) for m in allmodels if len(m.g["edges"]) > 3}),
